@@ -27,6 +27,16 @@ Theorem C13_atomic :
 Proof. exact atomic. Qed.
 Print Assumptions C13_atomic.
 
+(* The same holds of the code as it is today ([Defective], and any other variant) for every failure point
+   except the two persistence failures. *)
+Theorem C13_atomic_today_partial :
+  forall var reg g st id f st' r evs,
+  do_commit var reg g st id f = (st', r, evs) ->
+  r <> ROk -> r <> RStartupSave -> r <> RVersionSave ->
+  st' = touch_state (expire st) id /\ rolled evs = rev (applied_ok evs).
+Proof. exact commit_early_failure. Qed.
+Print Assumptions C13_atomic_today_partial.
+
 (* FRAME.  In every reachable state a successful Commit publishes the session's candidate to
    running, startup and the startup file, and the new running configuration differs from the
    previous one only at leaves whose path was set in this session and at containers that are
